@@ -104,7 +104,12 @@ def problem_A(ctx, case):
     if case.get("utils"):
         utils = [{"name": "HP", "type": "Hot", "t_supply": ctx.const(250.0), "t_target": ctx.const(250.0), "dt_cont": ctx.const(5.0), "htc": ctx.const(1.0), "price": ctx.const(40.0)},
                  {"name": "CW", "type": "Cold", "t_supply": ctx.const(20.0), "t_target": ctx.const(20.0), "dt_cont": ctx.const(5.0), "htc": ctx.const(1.0), "price": ctx.const(10.0)}]
-    return {"streams": [s0, s1], "utilities": utils, "options": dict(case.get("options") or {})}
+    spec = {"streams": [s0, s1], "utilities": utils, "options": dict(case.get("options") or {})}
+    if case.get("tree"):
+        # explicit zone tree with generic types; the second stream is labelled with the ROOT zone's own name
+        s1["zone"] = "Plant"
+        spec["zone_tree"] = {"name": "Plant", "type": "Zone", "children": [{"name": zone, "type": "Zone", "children": None}, {"name": "Spare", "type": "Zone", "children": None}]}
+    return spec
 
 
 def separation(ctx, spec):
@@ -160,7 +165,10 @@ def cases(tier, seed):
     if tier == "quick":
         out.append({"sweep": "ts", "form": "model", "zoneA": "Z1", "zoneB": "ZB"})
         out.append({"sweep": "ts", "form": "dict", "zoneA": "Z1", "zoneB": "Z1", "utils": True})
+        out.append({"sweep": "ts", "form": "model", "zoneA": "Z1", "zoneB": "ZB", "tree": True})
     else:
+        out.append({"sweep": "ts", "form": "model", "zoneA": "Z1", "zoneB": "ZB", "tree": True})
+        out.append({"sweep": "ts", "form": "dict", "zoneA": "Z1", "zoneB": "Z1", "tree": True})
         for form in ("model", "dict"):
             for zoneB in ("ZB", "Z1"):
                 out.append({"sweep": "ts", "form": form, "zoneA": "Z1", "zoneB": zoneB})
